@@ -176,13 +176,20 @@ func observeReal(db gdbi.GraphDB, u universe, workDir string) *obs {
 			o.put(fmt.Sprintf("%s/edge-lookup-noload(%s)", gn, id), eCanon(g.GetEdge(id, false), false))
 		}
 		var vl []string
+		liveVL, liveEL := map[string]bool{}, map[string]bool{}
 		for v := range g.GetVertexList(ctx, true) {
 			vl = append(vl, vCanon(v))
+			if v != nil {
+				liveVL[v.Label] = true
+			}
 		}
 		o.put(gn+"/vertex-listing", sortedJoin(vl))
 		var el, el2 []string
 		for e := range g.GetEdgeList(ctx, true) {
 			el = append(el, eCanon(e, true))
+			if e != nil {
+				liveEL[e.Label] = true
+			}
 		}
 		for e := range g.GetEdgeList(ctx, false) {
 			el2 = append(el2, eCanon(e, false))
@@ -204,6 +211,11 @@ func observeReal(db gdbi.GraphDB, u universe, workDir string) *obs {
 		le, _ := g.ListEdgeLabels()
 		o.put(gn+"/vertex-labels", sortedJoin(append([]string{}, lv...)))
 		o.put(gn+"/edge-labels", sortedJoin(append([]string{}, le...)))
+		// the label listings may hold stale labels (a recorded finding, masked
+		// where it applies); what they may never do is miss the label of a
+		// listed element
+		o.put(gn+"/listed-vertex-labels-missing-from-label-listing", sortedJoin(missingFrom(liveVL, lv)))
+		o.put(gn+"/listed-edge-labels-missing-from-label-listing", sortedJoin(missingFrom(liveEL, le)))
 		for _, l := range u.VLabels {
 			// the compiled (label index) path
 			var rows []string
@@ -280,6 +292,8 @@ func observeModel(s *model.Store, u universe) *obs {
 		}
 		o.put(gn+"/vertex-labels", sortedJoin(g.VertexLabels()))
 		o.put(gn+"/edge-labels", sortedJoin(g.EdgeLabels()))
+		o.put(gn+"/listed-vertex-labels-missing-from-label-listing", "[]")
+		o.put(gn+"/listed-edge-labels-missing-from-label-listing", "[]")
 		for _, l := range u.VLabels {
 			var rows []string
 			for _, id := range g.VertexIDs() {
@@ -303,4 +317,19 @@ func (o *obs) dropKind(kind string) {
 		keep = append(keep, k)
 	}
 	o.keys = keep
+}
+
+func missingFrom(live map[string]bool, listing []string) []string {
+	in := map[string]bool{}
+	for _, l := range listing {
+		in[l] = true
+	}
+	var out []string
+	for l := range live {
+		if !in[l] {
+			out = append(out, l)
+		}
+	}
+	sort.Strings(out)
+	return out
 }
